@@ -641,7 +641,7 @@ func init() {
 		return &profile{
 			config: func(r *RNG, thorough bool) *RunConfig {
 				cfg := baseConfig(name, r, thorough)
-				cfg.N0 = []int{2, 3, 4, 4, 5, 5}[r.Intn(6)]
+				cfg.N0 = []int{1, 2, 3, 4, 4, 5, 5, 1}[r.Intn(8)]
 				cfg.Stores = make([]string, cfg.N0)
 				for i := range cfg.Stores {
 					cfg.Stores[i] = "inmem"
